@@ -441,6 +441,8 @@ pub struct Script {
     /// (life, clock step of that life, ns): there the monotonic reading goes BACK by up to that many ns (a TimeSource
     /// need not be an OS clock): the third kind of inconsistent clocks the reboot report has to survive
     pub mono_back: Option<(usize, usize, u64)>,
+    /// the consumer polls the event stream with a different waker each time (two wakers, alternating)
+    pub switch_wakers: bool,
 }
 
 impl Default for Script {
@@ -474,6 +476,7 @@ impl Default for Script {
             embedder_changes_apps_at_wait: None,
             content_type_mask: 0,
             mono_back: None,
+            switch_wakers: false,
         }
     }
 }
